@@ -31,6 +31,8 @@ theorem share_arrayLitAssignInPlace : share.arrayLitAssignInPlace = true := rfl
 theorem share_lookup2DefineFresh : share.lookup2DefineFresh = true := rfl
 theorem share_lookup2RedeclInPlace : share.lookup2RedeclInPlace = true := rfl
 theorem share_structLitInTemp : share.structLitInTemp = true := rfl
+theorem share_callResultsFresh : share.callResultsFresh = true := rfl
+theorem share_returnTwoPhase : share.returnTwoPhase = true := rfl
 theorem share_derefNilPanics : share.derefNilPanics = true := rfl
 theorem share_recvAssignsValue : share.recvAssignsValue = true := rfl
 theorem share_assertDefineFresh : share.assertDefineFresh = true := rfl
